@@ -219,10 +219,11 @@ def step (σ : St) (op obs : List String) : St × List Msg :=
   | ["snapshot", via], [hex, lens, size, hA] =>
     let ls := natList lens
     let σ := { σ with lens := ls, size := toNat! size, hashA := hA }
-    if hex = "absent" then ({ σ with absent := true, haveBase := true, base := [] }, [.tag "old:absent"])
+    if hex = "noctx" ∨ hex = "nofile" then ({ σ with haveBase := false }, [.tag s!"snapshot:{hex}"])
+    else if hex = "absent" then ({ σ with absent := true, haveBase := true, base := [] }, [.tag "old:absent"])
     else
       let d0 := expectEq "gen.dump" σ.genHash hA
-      if hex = "big" then (σ, d0 ++ [.tag "snapshot:big"])
+      if hex = "big" then ({ σ with haveBase := true }, d0 ++ [.tag "snapshot:big"])
       else
         let b := bytesOf hex
         let ml := match rawLens (max σ.maxSize (ls.foldl max 0)) b with
@@ -233,6 +234,7 @@ def step (σ : St) (op obs : List String) : St × List Msg :=
           [.tag s!"via:{via}"] ++ (if ls.isEmpty then [.tag "snapshot:empty"] else []) ++
           (if ls.length > 1 then [.tag "snapshot:multi"] else []))
   | ["reload", _], [res, n, hB] =>
+    if !σ.haveBase then (σ, [.tag "reload:noctx"]) else
     -- finding F9 is exactly: a record longer than protodelim's default MaxSize (4 MiB).  Any other refusal of a
     -- file the store wrote itself — in particular of a record BELOW that size — is a new violation.
     let over := σ.lens.any (· > defaultMaxSize)
